@@ -60,6 +60,14 @@ Theorem C19_mirror : forall (sort : bool) (listing : list fsn) (pre : list text)
 Proof. exact load_mirror. Qed.
 Print Assumptions C19_mirror.
 
+(* read off: len(tree) = number of files and folders; every entry has its node at the same
+   depth (length of the path) with the same name / flag / size / mtime *)
+Theorem C19_node_count_and_depths : forall (sort : bool) (listing : list fsn),
+  length (tree_entries [] (load sort listing)) = length (dir_entries [] listing) /\
+  Permutation (map depth_entry (tree_entries [] (load sort listing))) (map depth_entry (dir_entries [] listing)).
+Proof. intros s l. exact (conj (load_count s l) (load_depths s l)). Qed.
+Print Assumptions C19_node_count_and_depths.
+
 (* sort=False keeps the listing order at every level: the pre-order walk of the
    tree is the walk of the directory (equal lists, not only a permutation) *)
 Theorem C19_unsorted_keeps_listing_order : forall (listing : list fsn) (pre : list text),
